@@ -368,7 +368,7 @@ class PeerGen(object):
                  wire.build_headers(sid, blk)])
         if m == 10:
             # many continuations
-            n = rng.choice([1, 5, 62, 63, 64, 65, 70])
+            n = rng.choice([1, 5, 62, 63, 64, 65, 70, 70, 1200, 3000])
             blk = self._hdr('request')
             nsid = self.next_sid if not self.e_is_client else sid
             out = wire.build_headers(nsid, blk, end_headers=False)
